@@ -6,5 +6,7 @@ CONSTANTS
   Miuxs = {0}
   Rws = {1}
   Sym = {0}
+  MemSapCodes = {0}
+  FrmrSapCodes = {0}
   Alpha = {0, 2, 5, 6}
 CHECK_DEADLOCK FALSE
